@@ -14,7 +14,8 @@ import (
 
 // C12: reported error positions are consistent with, and point into, the program text.
 
-var c12Lines = []string{"", "# cömment ©", `x = "é"`, "\ty = 2", "z = 3"}
+// the last two entries are literals that span two physical lines
+var c12Lines = []string{"", "# cömment ©", `x = "é"`, "\ty = 2", "z = 3", "s = \"first\nsecond\"", "t = 'a' ~ /b\nc/"}
 
 const c12Preset = `numv = 5; arrv = [1, 2]; objv = {k: 1}`
 
@@ -60,7 +61,8 @@ func c12Faults() []c12Fault {
 		c12Fault{"single &", "w = 1 & 2", 6, 7, false},
 	)
 	rt := []string{`1 / 0`, `1 % 0`, `5(1)`, `nofn()`, `"a" ~ "("`, `[1] < 2`, `$nope`, `"a\qb"`, `printf("%s")`, `printf("%d", 1)`, `numv.k = 1`, `arrv["k"] = 1`, `arrv[-9]`, `objv[[1]]`,
-		`match (1) { -1 => 2 }`, `1.2.3`, `arrv.push()`, `"a".split(1)`, `[printf]`, `numv.k++`}
+		`match (1) { -1 => 2 }`, `1.2.3`, `arrv.push()`, `"a".split(1)`, `[printf]`, `numv.k++`,
+		`wz /= 0`, `numv.k += 1`, `arrv["k"] -= 1`, `objv.k /= 0`, `numv.k *= 2`}
 	for _, f := range rt {
 		for k := 0; k <= 3; k++ {
 			pre := `q = "` + strings.Repeat("é", k) + `"; w = `
@@ -92,8 +94,8 @@ func c12Program(s c12Spec, faults []c12Fault) (src string, line int, f c12Fault)
 	for _, k := range s.Pre {
 		lines = append(lines, c12Lines[k])
 	}
+	line = strings.Count(strings.Join(lines, "\n"), "\n") + 2 // some lines hold a literal with a newline in it
 	lines = append(lines, f.line)
-	line = len(lines)
 	for _, k := range s.Post {
 		lines = append(lines, c12Lines[k])
 	}
